@@ -13,6 +13,7 @@
     iso.parse <kind> textHex → ok fields… | fail | !err
     iso.fmt@ <kind> otherPatternHex fields… | iso.parse@ <kind> otherPatternHex textHex   (same answers: see `handle`)
     pyiso.date y m d | pyiso.time microsecondOfDay | pyiso.offset seconds → textHex
+    inst.fmt / inst.parse: the Instant adapter over day number and nanosecond of day (`Text/InstantAdapter.lean`)
   kinds: date (y m d) | time, timelong, timegen (nanosecond of day) | dt, dtgen, dtbcl, inst, instgen (y m d nod)
          | off, offz (seconds)
 -/
@@ -21,6 +22,7 @@ import PyodaModel.Text.Numeric
 import PyodaModel.Text.Iso
 import PyodaModel.Text.PyIso
 import PyodaModel.Text.PatHandle
+import PyodaModel.Text.InstantAdapter
 
 namespace Pyoda.Text
 
@@ -134,6 +136,8 @@ def handle (toks : List String) : Option String :=
   | ["pyiso.offset", s] => do
       let s ← parseInt? s
       some (encodeText (pyOffsetIso s))
-  | _ => handlePat toks
+  | _ => match handlePat toks with
+    | some r => some r
+    | none => handleInstant toks
 
 end Pyoda.Text
